@@ -6,6 +6,7 @@ package main
 
 import (
 	"fmt"
+	"go/constant"
 	"go/token"
 	"go/types"
 	"math"
@@ -33,13 +34,21 @@ func (a ival) String() string {
 
 // pathState: constraints collected along one path.
 type pathState struct {
+	strEq  map[string]string   // sym == const
+	strNeq map[string][]string // sym != consts
 	ints  map[string][]ival
 	bools map[string]bool
 	rels  []string // relational atoms between two symbols, rendered "a<=b" with polarity
 }
 
 func (s pathState) clone() pathState {
-	o := pathState{ints: map[string][]ival{}, bools: map[string]bool{}}
+	o := pathState{ints: map[string][]ival{}, bools: map[string]bool{}, strEq: map[string]string{}, strNeq: map[string][]string{}}
+	for k, v := range s.strEq {
+		o.strEq[k] = v
+	}
+	for k, v := range s.strNeq {
+		o.strNeq[k] = append([]string{}, v...)
+	}
 	for k, v := range s.ints {
 		o.ints[k] = append([]ival{}, v...)
 	}
@@ -142,6 +151,12 @@ func addrSym(v ssa.Value) (string, bool) {
 		}
 	case *ssa.UnOp:
 		return symOf(x)
+	case *ssa.Extract:
+		if call, ok := x.Tuple.(*ssa.Call); ok {
+			return callDesc(call) + "()#" + itoa(x.Index), true
+		}
+	case *ssa.Call:
+		return callDesc(x) + "()", true
 	}
 	return "", false
 }
@@ -221,6 +236,34 @@ func (s *pathState) constrain(a Atom) (feasible bool, understood bool) {
 		cur = intersectIvals(cur, with)
 		s.ints[sym] = cur
 		return len(cur) > 0, true
+	}
+	// string symbol against a constant
+	if cs, ok := a.Y.(*ssa.Const); ok && cs.Value != nil && cs.Value.Kind() == constant.String && (a.Op == token.EQL || a.Op == token.NEQ) {
+		sym, ok := symOf(a.X)
+		if !ok {
+			return true, false
+		}
+		val := constant.StringVal(cs.Value)
+		if s.strEq == nil {
+			s.strEq, s.strNeq = map[string]string{}, map[string][]string{}
+		}
+		if a.Op == token.EQL {
+			if old, seen := s.strEq[sym]; seen && old != val {
+				return false, true
+			}
+			for _, n := range s.strNeq[sym] {
+				if n == val {
+					return false, true
+				}
+			}
+			s.strEq[sym] = val
+		} else {
+			if old, seen := s.strEq[sym]; seen && old == val {
+				return false, true
+			}
+			s.strNeq[sym] = append(s.strNeq[sym], val)
+		}
+		return true, true
 	}
 	// relation between two symbols
 	xs, ok1 := symOf(a.X)
@@ -314,7 +357,7 @@ func enumeratePaths(start *ssa.BasicBlock, limit int) []predPath {
 			}
 		}
 	}
-	dfs(start, nil, pathState{ints: map[string][]ival{}, bools: map[string]bool{}}, nil, nil, map[*ssa.Phi]ssa.Value{}, map[*ssa.BasicBlock]bool{})
+	dfs(start, nil, pathState{ints: map[string][]ival{}, bools: map[string]bool{}, strEq: map[string]string{}, strNeq: map[string][]string{}}, nil, nil, map[*ssa.Phi]ssa.Value{}, map[*ssa.BasicBlock]bool{})
 	return out
 }
 
@@ -428,4 +471,35 @@ func intersectIvals(a, b []ival) []ival {
 		}
 	}
 	return mergeIvals(out)
+}
+
+// resolveOnPath resolves a value read at the end of a path: phi operands by the
+// predecessor taken, and loads of spilled result cells by the last store on the path.
+func resolveOnPath(v ssa.Value, pa predPath) ssa.Value {
+	for i := 0; i < 6; i++ {
+		if phi, ok := v.(*ssa.Phi); ok {
+			if pv, ok := pa.PhiPred[phi]; ok {
+				v = pv
+				continue
+			}
+		}
+		if u, ok := v.(*ssa.UnOp); ok && u.Op == token.MUL {
+			if a, ok := u.X.(*ssa.Alloc); ok {
+				var last ssa.Value
+				for _, b := range pa.Blocks {
+					for _, ins := range b.Instrs {
+						if st, ok := ins.(*ssa.Store); ok && st.Addr == a {
+							last = st.Val
+						}
+					}
+				}
+				if last != nil {
+					v = last
+					continue
+				}
+			}
+		}
+		break
+	}
+	return v
 }
